@@ -159,7 +159,7 @@ def constraint_terms(spec, info, par_index):
             if t0 in ('normsys', 'histosys'): terms.append(f'lnorm {a} {th} (1.0 : K)')
             elif t0 == 'lumi':
                 sg = next(p for p in spec['parameters'] if p['name'] == n)['sigmas'][i]
-                terms.append(f'lnorm {a} {th} ({sg!r} : K)')
+                terms.append(f'lnorm {a} {th} {sx.lean_const(sg)}')
             elif t0 == 'shapesys':
                 terms.append(f'lpois {a} ({th} * ((P.pow {smp0["data"][i]} (2.0 : K)) / (P.pow {m0["data"][i]} (2.0 : K))))')
             elif t0 == 'staterror':
